@@ -173,9 +173,9 @@ Proof.
     assert (z = lz l) by (eapply adv_same; eauto). subst z.
     assert (Hlim : lpos (lz l) + 2 <= lx_len (lz l)) by (pose proof (pk_nz_lt _ 1 33 Hw Hp1 ltac:(lia)); lia).
     assert (Ha2 : adv (lz l) (mv (lz l) 2)) by (apply adv_mv; lia).
-    binv Hn. destruct a as [[[ty tk] tx] z'].
-    pose proof (safe_eq _ _ _ (read_markup_spec (mv (lz l) 2) ltac:(eauto using adv_wf) ltac:(cbn; lia)) E) as Hp.
-    cbn [markup_post] in Hp. destruct Hp as (_ & _ & _ & _ & Hlt).
+    binv Hn. destruct a as [[[[ty tk] tx] z'] hm].
+    pose proof (safe_eq _ _ _ (read_markup_spec c (mv (lz l) 2) _ Hc ltac:(eauto using adv_wf) ltac:(cbn; lia)) E) as Hp.
+    cbn [markup_post fst] in Hp. destruct Hp as (_ & _ & _ & _ & Hlt).
     injection Hn as -> <- <-. cbn [ltext] in Htx. injection Htx as ->. lia.
   - binv Hn. discriminate.
   - discriminate.
@@ -326,12 +326,22 @@ Proof.
 Qed.
 
 (* ---- (v) a region at the start of raw text (delimiter not starting with '<') lies inside the Text token ------------ *)
+Lemma script_comment_loop_has c fuel s r : loop fuel (script_comment_loop_body c) s = Ok r -> snd s = true -> snd r = true.
+Proof.
+  intros H Hs. unfold script_comment_loop_body in H.
+  refine (with_tmpl_inv c _ _ (fun sh : lx * bool * bool => snd sh = true) (fun r : (lx + lx) * bool => snd r = true)
+            script_comment_body _ _ fuel s r Hs H).
+  - intros; reflexivity.
+  - intros s0 h x Hh _. cbn [snd] in Hh. destruct x; exact Hh.
+Qed.
+
 Lemma rawtext_loop_has c raw fuel s r : loop fuel (rawtext_body c raw) s = Ok r -> snd s = true -> snd r = true.
 Proof.
   intros H Hs.
   refine (loop_inv (fun x => snd x = true) (fun x => snd x = true) (rawtext_body c raw) _ _ s r Hs H).
   clear. intros [z has] x Hh Hx. cbn [snd] in Hh. subst has. unfold rawtext_body in Hx.
   destruct (pkr z 0) as [c0| |]; cbn [rbind] in Hx; try discriminate.
+  destruct (skip_tmpl c z) as [[zt|]| |]; cbn [rbind] in Hx; try discriminate; [injection Hx as <-; reflexivity|].
   destruct (c0 =? 60).
   - destruct (pkr z 1) as [c1| |]; cbn [rbind] in Hx; try discriminate.
     destruct (c1 =? 47).
@@ -344,12 +354,10 @@ Proof.
                 then c2 <-- pkr z 2;; (if c2 =? 45 then c3 <-- pkr z 3;; Ok (c3 =? 45) else Ok false)
                 else Ok false) as [sc| |]; cbn [rbind] in Hx; try discriminate.
       destruct sc; [|injection Hx as <-; reflexivity].
-      destruct (loop (fuel_of z) script_comment_body (mv z 4, false)) as [r2| |]; cbn [rbind] in Hx; try discriminate.
+      destruct (loop (fuel_of z) (script_comment_loop_body c) (mv z 4, false, true)) as [[r2 h2]| |] eqn:E2; cbn [rbind] in Hx; try discriminate.
+      pose proof (script_comment_loop_has _ _ _ _ E2 eq_refl) as Hh2. cbn [snd] in Hh2. subst h2.
       destruct r2; injection Hx as <-; reflexivity.
-  - destruct (tmpl_at c z) as [t| |]; cbn [rbind] in Hx; try discriminate.
-    destruct t.
-    + destruct (tmpl_skip c z) as [z'| |]; cbn [rbind] in Hx; try discriminate. injection Hx as <-. reflexivity.
-    + destruct (eof0 z c0); injection Hx as <-; reflexivity.
+  - destruct (eof0 z c0); injection Hx as <-; reflexivity.
 Qed.
 
 Lemma html_template_rawtext_proof : forall c d l p q, cfg_ok c -> html_inv d l -> intag l = false ->
@@ -377,8 +385,7 @@ Proof.
   destruct (safe_inv _ _ (rawtext_loop_spec c (rawtag l) z' true Hc Hw')) as (r & Er & Har).
   assert (Hloop : loop (fuel_of (lz l)) (rawtext_body c (rawtag l)) (lz l, false) = Ok r).
   { unfold fuel_of at 1. cbn [loop]. unfold rawtext_body at 1. unfold pkr at 1. rewrite Hp1. cbn [opt_res rbind].
-    replace (x =? 60) with false by (symmetry; apply Z.eqb_neq; exact Hx60).
-    unfold tmpl_at. replace (has_delims c) with true by (unfold has_delims; rewrite Etb; reflexivity).
+    unfold skip_tmpl, tmpl_at. replace (has_delims c) with true by (unfold has_delims; rewrite Etb; reflexivity).
     rewrite at_rem by (apply Hc || exact Hw). rewrite Hpre'. cbn [rbind]. rewrite Hsk. cbn [rbind].
     eapply loop_fuel_mono; [exact Er|]. unfold fuel_of, z'. unfold lx_len in Hle. cbn [lbuf lpos]. lia. }
   rewrite Hloop. cbn [rbind].
